@@ -404,6 +404,10 @@ def gmres(A: LinearOperator, B: torch.Tensor,
         b = torch.zeros((*batchdims, ncols, k + 1), dtype=A.dtype, device=A.device)
         b = b.reshape(-1, ncols, k + 1)
         b[..., 0] = torch.linalg.norm(r, dim=-2).reshape(-1, ncols)
+        if k == 0:
+            # no Krylov vector is used yet: nothing to solve (and lstsq with
+            # zero columns fails for complex dtypes)
+            continue
         rk = torch.linalg.lstsq(h[..., :k + 1, :k], b)[0]  # torch.Size([*batch_dims, max_niter])
         # Q, R = torch.linalg.qr(h[:, :k+1, :k], mode='complete')
         # result = torch.triangular_solve(torch.matmul(Q.permute(0, 2, 1), b[:, :, None])[:, :-1], R[:, :-1, :])[0]
